@@ -66,3 +66,7 @@ package state_machines
 //@   ensures unchanged("node.BaseNodeService.SkipCommKeysVerification", "node.BaseNodeService.userName", "node.BaseNodeService.state", "node.BaseNodeService.storage", "node.BaseNodeService.ctx", "[]storage.Message", "types.ReDKG.Messages")
 //@   ensures result1 == nil ==> fresh(result0)
 //@   ensures[C19.restore.machine] result1 == nil ==> result0 != nil && result0.machine != nil && result0.dump != nil
+
+// A cancelled round never moves again: in the proposal and key-generation machines no transition leaves a cancelled
+// state and no machine starts in one (decided on the tables produced by the real constructors, one obligation per state).
+//@ tables[C05.terminal] terminal signature_proposal_fsm dkg_proposal_fsm
